@@ -38,9 +38,10 @@ def Ev.OK : Ev → Prop
   | .c _ => True
 
 theorem PInv.congr {clk : Nat} {k : Kernel} {ps ps' : Ps} (h : PInv clk k ps)
-    (hb : ps'.bootTime = ps.bootTime) (ho : ps'.objs = ps.objs) : PInv clk k ps' :=
+    (hb : ps'.bootTime = ps.bootTime) (ho : ps'.objs = ps.objs)
+    (hp : ∀ e ∈ ps'.pmap, ∃ o, ps.objs[e.2]? = some o ∧ o.pid = e.1) : PInv clk k ps' :=
   ⟨fun B hB => h.boot_nz B (hb ▸ hB), fun o hm => by
-    rw [ho] at hm; rw [hb]; exact h.objs o hm⟩
+    rw [ho] at hm; rw [hb]; exact h.objs o hm, fun e he => by rw [ho]; exact hp e he⟩
 
 theorem PInv.objs_nil_of_none {clk : Nat} {k : Kernel} {ps : Ps} (h : PInv clk k ps)
     (hb : ps.bootTime = none) : ps.objs = [] := by
@@ -54,8 +55,23 @@ theorem PInv.objs_nil_of_none {clk : Nat} {k : Kernel} {ps : Ps} (h : PInv clk k
 theorem PInv.setBoot {clk : Nat} {k : Kernel} {ps : Ps} (h : PInv clk k ps)
     (hb : ps.bootTime = none) {b : Nat} (hnz : b ≠ 0) : PInv clk k { ps with bootTime := some b } :=
   ⟨fun B hB => by cases hB; exact hnz, fun o hm => by
-    have : ps.objs = [] := h.objs_nil_of_none hb
-    simp only [this] at hm; cases hm⟩
+    (have : ps.objs = [] := h.objs_nil_of_none hb
+     simp only [this] at hm; cases hm), h.pmap⟩
+
+theorem bootTimeCall_pmap (c : Cfg) (k : Kernel) (ps : Ps) :
+    (bootTimeCall c k ps).1.pmap = ps.pmap ∧ (bootTimeCall c k ps).1.objs = ps.objs := by
+  unfold bootTimeCall; split <;> exact ⟨rfl, rfl⟩
+
+theorem bootForCreate_pmap (c : Cfg) (k : Kernel) (ps : Ps) :
+    (bootForCreate c k ps).1.pmap = ps.pmap ∧ (bootForCreate c k ps).1.objs = ps.objs := by
+  unfold bootForCreate
+  split
+  · split
+    · split
+      · exact ⟨rfl, rfl⟩
+      · exact bootTimeCall_pmap c k ps
+    · exact bootTimeCall_pmap c k ps
+  · exact bootTimeCall_pmap c k ps
 
 theorem bootForCreate_inv {c : Cfg} (hc : c.BootGood) {k : Kernel} {ps : Ps} (hk : k.btime ≠ 0)
     (h : PInv c.clk k ps) :
@@ -77,50 +93,230 @@ theorem bootTimeCall_inv {c : Cfg} (hc : c.BootGood) {k : Kernel} {ps : Ps} (hk 
   | none => rw [bootTimeCall_none hb]; exact ⟨h.setBoot hb hk, rfl⟩
   | some B => rw [bootTimeCall_some hc hb]; exact ⟨h, rfl⟩
 
-theorem PInv.setObj {clk : Nat} {k : Kernel} {ps ps' : Ps} {B : Nat} {o' : PObj} (h : PInv clk k ps)
-    (hs : PsSame ps ps') (hb : ps.bootTime = some B) (ho : ObjOK clk k B o') (i : Nat) :
+theorem PInv.setObj {clk : Nat} {k : Kernel} {ps ps' : Ps} {B : Nat} {o o' : PObj} (h : PInv clk k ps)
+    (hs : PsSame ps ps') (hb : ps.bootTime = some B) (ho : ObjOK clk k B o') {i : Nat}
+    (hi : ps.objs[i]? = some o) (hpid : o'.pid = o.pid) :
     PInv clk k (setObj ps' i o') :=
   ⟨fun B' hB' => h.boot_nz B' (by simpa [C01.setObj, hs.boot] using hB'), fun o hm => by
     simp only [C01.setObj] at hm ⊢
     rcases List.mem_or_eq_of_mem_set hm with hm | rfl
     · rw [hs.objs] at hm; rw [hs.boot]; exact h.objs o hm
-    · exact ⟨B, by rw [hs.boot]; exact hb, ho⟩⟩
+    · exact ⟨B, by rw [hs.boot]; exact hb, ho⟩, fun e he => by
+    simp only [C01.setObj, hs.pmap, hs.objs] at he ⊢
+    obtain ⟨x, hx, hxp⟩ := h.pmap e he
+    by_cases hij : i = e.2
+    · subst hij
+      rw [hi] at hx; cases hx
+      have hlt : e.2 < ps.objs.length := by
+        rcases Nat.lt_or_ge e.2 ps.objs.length with h' | h'
+        · exact h'
+        · rw [List.getElem?_eq_none h'] at hi; cases hi
+      exact ⟨o', List.getElem?_set_self hlt, hpid.trans hxp⟩
+    · exact ⟨x, by rw [List.getElem?_set_ne hij]; exact hx, hxp⟩⟩
 
 theorem mkObj_inv {c : Cfg} (hc : c.BootGood) {k : Kernel} {ps : Ps} (hk : KInv k) (h : PInv c.clk k ps)
     (pid : Nat) :
     match mkObj c k ps pid with
     | (ps', none) => ps' = ps ∧ k.find pid = none
     | (ps', some o) => PInv c.clk k { ps' with objs := ps'.objs ++ [o] } ∧ ps'.objs = ps.objs
-        ∧ o.pid = pid ∧ k.owner pid = some o.ghost ∧ o.gone = false ∧ o.reused = false := by
+        ∧ o.pid = pid ∧ k.owner pid = some o.ghost ∧ o.gone = false ∧ o.reused = false
+        ∧ ps'.pmap = ps.pmap ∧ (∀ B, ps.bootTime = some B → ps'.bootTime = some B) := by
   unfold mkObj
   cases hf : k.find pid with
   | none => exact ⟨rfl, rfl⟩
   | some x =>
-    obtain ⟨hp, hobjs, hbt, hnz, _⟩ := bootForCreate_inv hc hk.btime h
-    refine ⟨⟨hp.boot_nz, ?_⟩, hobjs, rfl, by simp [Kernel.owner, hf], rfl, rfl⟩
-    intro o hm
-    rcases List.mem_append.1 hm with hm | hm
-    · exact hp.objs o hm
-    · simp only [List.mem_singleton] at hm
-      subst hm
-      exact ⟨_, hbt, ⟨hk.find_lt hf, rfl, fun hd => by simp at hd⟩⟩
+    obtain ⟨hp, hobjs, hbt, hnz, hkeep⟩ := bootForCreate_inv hc hk.btime h
+    refine ⟨⟨hp.boot_nz, ?_, ?_⟩, hobjs, rfl, by simp [Kernel.owner, hf], rfl, rfl,
+      (bootForCreate_pmap c k ps).1, hkeep⟩
+    · intro o hm
+      rcases List.mem_append.1 hm with hm | hm
+      · exact hp.objs o hm
+      · simp only [List.mem_singleton] at hm
+        subst hm
+        exact ⟨_, hbt, ⟨hk.find_lt hf, rfl, fun hd => by simp at hd⟩⟩
+    · intro e he
+      obtain ⟨x', hx', hxp⟩ := hp.pmap e he
+      have hlt : e.2 < (bootForCreate c k ps).1.objs.length := by
+        rcases Nat.lt_or_ge e.2 (bootForCreate c k ps).1.objs.length with h' | h'
+        · exact h'
+        · rw [List.getElem?_eq_none h'] at hx'; cases hx'
+      exact ⟨x', by simp only; rw [List.getElem?_append_left hlt]; exact hx', hxp⟩
 
-theorem processIter_inv {c : Cfg} (hc : c.BootGood) {k : Kernel} {ps : Ps} (hk : k.btime ≠ 0)
-    (h : PInv c.clk k ps) :
-    PInv c.clk k (processIter c k ps).1 ∧ (processIter c k ps).1.objs = ps.objs := by
-  obtain ⟨hp, hobjs, _⟩ := bootForCreate_inv hc hk h
+/-! ### `process_iter()` -/
+
+theorem getElem?_lt_of_some {α : Type} {l : List α} {i : Nat} {x : α} (h : l[i]? = some x) : i < l.length := by
+  rcases Nat.lt_or_ge i l.length with h' | h'
+  · exact h'
+  · rw [List.getElem?_eq_none h'] at h; cases h
+
+theorem getElem?_append_of_some {α : Type} {l : List α} {i : Nat} {x : α} (h : l[i]? = some x) (t : List α) :
+    (l ++ t)[i]? = some x := by
+  rw [List.getElem?_append_left (getElem?_lt_of_some h)]; exact h
+
+theorem pmLookup_mem {pm : List (Nat × Nat)} {p i : Nat} (h : pmLookup pm p = some i) : (p, i) ∈ pm := by
+  unfold pmLookup at h
+  cases hf : pm.find? (·.1 == p) with
+  | none => simp [hf] at h
+  | some x =>
+    simp only [hf, Option.map_some, Option.some.injEq] at h
+    have hm := List.mem_of_find?_eq_some hf
+    have hp : x.1 = p := by simpa using List.find?_some hf
+    have : x = (p, i) := by cases x; simp_all
+    exact this ▸ hm
+
+/-- `Process(pid)` in any state and configuration: nothing but `BOOT_TIME` moves; a new object is built for
+    whoever owns the PID now, without sticky flags -/
+theorem mkObj_shape (c : Cfg) (k : Kernel) (ps : Ps) (pid : Nat) :
+    match mkObj c k ps pid with
+    | (ps', none) => ps'.objs = ps.objs ∧ ps'.pmap = ps.pmap
+    | (ps', some o) => ps'.objs = ps.objs ∧ ps'.pmap = ps.pmap ∧ o.pid = pid
+        ∧ k.owner pid = some o.ghost ∧ o.gone = false ∧ o.reused = false := by
+  unfold mkObj
+  cases hf : k.find pid with
+  | none => exact ⟨rfl, rfl⟩
+  | some x =>
+    exact ⟨(bootForCreate_pmap c k ps).2, (bootForCreate_pmap c k ps).1, rfl, by simp [Kernel.owner, hf], rfl, rfl⟩
+
+theorem iterLoop_cons (c : Cfg) (k : Kernel) (kept : List (Nat × Nat)) (evicted : List Nat) (ps : Ps)
+    (p : Nat) (rest : List Nat) :
+    iterLoop c k kept evicted ps (p :: rest) =
+      match pmLookup kept p with
+      | some i => ((iterLoop c k kept evicted ps rest).1, (p, i) :: (iterLoop c k kept evicted ps rest).2)
+      | none =>
+        if evicted.contains p then iterLoop c k kept evicted ps rest
+        else
+          match mkObj c k ps p with
+          | (ps', none) => iterLoop c k kept evicted ps' rest
+          | (ps', some o) =>
+            ((iterLoop c k kept evicted { ps' with objs := ps'.objs ++ [o] } rest).1,
+             (p, ps'.objs.length) :: (iterLoop c k kept evicted { ps' with objs := ps'.objs ++ [o] } rest).2) := by
+  rw [iterLoop]; rfl
+
+/-- a handle yielded by `process_iter()` that was not in the cache: a new object, appended behind the
+    existing ones, built for the current owner of the PID, no sticky flag -/
+def FreshHandle (k : Kernel) (n : Nat) (objs : List PObj) (e : Nat × Nat) : Prop :=
+  n ≤ e.2 ∧ ∃ o, objs[e.2]? = some o ∧ o.pid = e.1 ∧ k.owner e.1 = some o.ghost ∧ o.gone = false ∧ o.reused = false
+
+/-- shape of the loop in any state and configuration: existing objects are untouched (new ones are
+    appended), the cache is not written, every yielded handle is a kept cache entry or a fresh object -/
+theorem iterLoop_shape (c : Cfg) (k : Kernel) (kept : List (Nat × Nat)) (evicted : List Nat) :
+    ∀ (l : List Nat) (ps : Ps),
+      (∃ t, (iterLoop c k kept evicted ps l).1.objs = ps.objs ++ t)
+      ∧ (iterLoop c k kept evicted ps l).1.pmap = ps.pmap
+      ∧ (∀ e ∈ (iterLoop c k kept evicted ps l).2,
+          e ∈ kept ∨ FreshHandle k ps.objs.length (iterLoop c k kept evicted ps l).1.objs e) := by
+  intro l
+  induction l with
+  | nil => intro ps; exact ⟨⟨[], by simp [iterLoop]⟩, rfl, fun e he => by simp [iterLoop] at he⟩
+  | cons p rest ih =>
+    intro ps
+    rw [iterLoop_cons]
+    cases hl : pmLookup kept p with
+    | some i =>
+      obtain ⟨hpre, hpm, hy⟩ := ih ps
+      refine ⟨hpre, hpm, ?_⟩
+      intro e he
+      rcases List.mem_cons.1 he with rfl | he
+      · exact Or.inl (pmLookup_mem hl)
+      · exact hy e he
+    | none =>
+      simp only
+      split
+      · exact ih ps
+      · have hm := mkObj_shape c k ps p
+        cases hmk : mkObj c k ps p with
+        | mk ps' oo =>
+          rw [hmk] at hm
+          cases oo with
+          | none =>
+            simp only at hm ⊢
+            obtain ⟨hpre, hpm, hy⟩ := ih ps'
+            rw [hm.1] at hpre hy; rw [hm.2] at hpm
+            exact ⟨hpre, hpm, hy⟩
+          | some o =>
+            simp only at hm ⊢
+            obtain ⟨hobjs, hpmap, hpid, hown, hg, hr⟩ := hm
+            obtain ⟨⟨t, ht⟩, hpm, hy⟩ := ih { ps' with objs := ps'.objs ++ [o] }
+            simp only [hobjs] at ht hy hpm ⊢
+            refine ⟨⟨[o] ++ t, by rw [ht, List.append_assoc]⟩, hpm.trans hpmap, ?_⟩
+            intro e he
+            rcases List.mem_cons.1 he with rfl | he
+            · refine Or.inr ⟨Nat.le_refl _, o, ?_, hpid, hown, hg, hr⟩
+              rw [ht, List.append_assoc]
+              simp
+            · rcases hy e he with hk | ⟨hle, hrest⟩
+              · exact Or.inl hk
+              · refine Or.inr ⟨?_, hrest⟩
+                simp only [List.length_append, List.length_singleton] at hle
+                omega
+
+theorem iterLoop_inv {c : Cfg} (hc : c.BootGood) {k : Kernel} (hk : KInv k) (kept : List (Nat × Nat))
+    (evicted : List Nat) : ∀ (l : List Nat) (ps : Ps), PInv c.clk k ps →
+      PInv c.clk k (iterLoop c k kept evicted ps l).1 := by
+  intro l
+  induction l with
+  | nil => intro ps h; exact h
+  | cons p rest ih =>
+    intro ps h
+    rw [iterLoop_cons]
+    cases hl : pmLookup kept p with
+    | some i => exact ih ps h
+    | none =>
+      simp only
+      split
+      · exact ih ps h
+      · have hm := mkObj_inv hc hk h p
+        cases hmk : mkObj c k ps p with
+        | mk ps' oo =>
+          rw [hmk] at hm
+          cases oo with
+          | none => simp only at hm ⊢; rw [hm.1]; exact ih ps h
+          | some o => simp only at hm ⊢; exact ih _ hm.1
+
+/-- `process_iter()` in any state and configuration: objects are only appended, the new cache is what
+    was yielded, and every yielded handle was cached before or is fresh -/
+theorem processIter_shape (c : Cfg) (k : Kernel) (ps : Ps) :
+    (∃ t, (processIter c k ps).1.objs = ps.objs ++ t)
+    ∧ (processIter c k ps).1.pmap = (processIter c k ps).2
+    ∧ (∀ e ∈ (processIter c k ps).2,
+        e ∈ ps.pmap ∨ FreshHandle k ps.objs.length (processIter c k ps).1.objs e) := by
   unfold processIter
   dsimp only
-  split
-  · exact ⟨h.congr rfl rfl, rfl⟩
-  · exact ⟨hp.congr rfl rfl, hobjs⟩
+  obtain ⟨hpre, _, hy⟩ := iterLoop_shape c k
+    ((ps.pmap.filter fun e => (sortPids (k.procs.map (·.pid))).contains e.1).filter
+      fun e => !ps.pidsReused.contains e.1)
+    (((ps.pmap.filter fun e => (sortPids (k.procs.map (·.pid))).contains e.1).filter
+      fun e => ps.pidsReused.contains e.1).map (·.1))
+    (sortPids (k.procs.map (·.pid))) ps
+  refine ⟨hpre, rfl, ?_⟩
+  intro e he
+  rcases hy e he with hk | hf
+  · exact Or.inl (List.mem_filter.1 (List.mem_filter.1 hk).1).1
+  · exact Or.inr hf
+
+theorem processIter_inv {c : Cfg} (hc : c.BootGood) {k : Kernel} {ps : Ps} (hk : KInv k)
+    (h : PInv c.clk k ps) : PInv c.clk k (processIter c k ps).1 := by
+  obtain ⟨⟨t, ht⟩, hpm, hy⟩ := processIter_shape c k ps
+  have hinv : PInv c.clk k (iterLoop c k
+      ((ps.pmap.filter fun e => (sortPids (k.procs.map (·.pid))).contains e.1).filter
+        fun e => !ps.pidsReused.contains e.1)
+      (((ps.pmap.filter fun e => (sortPids (k.procs.map (·.pid))).contains e.1).filter
+        fun e => ps.pidsReused.contains e.1).map (·.1))
+      ps (sortPids (k.procs.map (·.pid)))).1 := iterLoop_inv hc hk _ _ _ ps h
+  refine ⟨hinv.boot_nz, hinv.objs, ?_⟩
+  intro e he
+  rw [hpm] at he
+  rcases hy e he with hk | ⟨_, o, ho, hp, _⟩
+  · obtain ⟨o, ho, hp⟩ := h.pmap e hk
+    exact ⟨o, by rw [ht]; exact getElem?_append_of_some ho t, hp⟩
+  · exact ⟨o, ho, hp⟩
 
 theorem method_inv {c : Cfg} (hc : c.BootGood) {s : St} (h : Inv c.clk s) {call : Call} {i : Nat} {o : PObj}
     {r : MRes} (ho : s.ps.objs[i]? = some o) (hm : method c s.kern s.ps o call = some r) :
     PInv c.clk s.kern (setObj r.ps i r.o) ∧ Evolves o r.o ∧ r.ps.objs = s.ps.objs := by
   obtain ⟨B, hb, hok⟩ := h.ps.objs o (List.mem_of_getElem? ho)
   have hk := method_keeps hc hb (h.ps.boot_nz B hb) hok hm
-  exact ⟨h.ps.setObj hk.same hb hk.ok i, hk.evo, hk.same.objs⟩
+  exact ⟨h.ps.setObj hk.same hb hk.ok ho hk.evo.pid, hk.evo, hk.same.objs⟩
 
 theorem step_inv {c : Cfg} (hc : c.BootGood) (s : St) (ev : Ev) (hev : ev.OK) (h : Inv c.clk s) :
     Inv c.clk (step c s ev).1 := by
@@ -147,7 +343,9 @@ theorem step_inv {c : Cfg} (hc : c.BootGood) (s : St) (ev : Ev) (hev : ev.OK) (h
           · rename_i ps' o heq; rw [heq] at this; exact ⟨h.kern, this.1⟩
       · exact ⟨h.kern, (bootTimeCall_inv hc h.kern.btime h.ps).1⟩
       · split <;> exact h
-      · exact ⟨h.kern, (processIter_inv hc h.kern.btime h.ps).1⟩
+      · exact ⟨h.kern, processIter_inv hc h.kern h.ps⟩
+      · exact h
+      · split <;> exact h
 
 def HistOK (h : List Ev) : Prop := ∀ e ∈ h, e.OK
 
@@ -161,6 +359,7 @@ theorem run_inv {c : Cfg} (hc : c.BootGood) (h : List Ev) : ∀ (s : St), HistOK
 
 theorem init_inv (clk : Nat) {b : Nat} (hb : b ≠ 0) : Inv clk (St.init b) :=
   ⟨⟨by simp [St.init], fun x hx => by simp [St.init] at hx, hb⟩,
-   ⟨fun B hB => by simp [St.init] at hB, fun o ho => by simp [St.init] at ho⟩⟩
+   ⟨fun B hB => by simp [St.init] at hB, fun o ho => by simp [St.init] at ho,
+    fun e he => by simp [St.init] at he⟩⟩
 
 end Psutil.C01
